@@ -8,6 +8,7 @@ package main
 import (
 	"encoding/json"
 	"fmt"
+	"go/types"
 	"os"
 	"path/filepath"
 
@@ -36,6 +37,8 @@ func main() {
 			_ = t
 		}
 		os.Exit(checkMain(os.Args[2], tier))
+	case "symreplay":
+		os.Exit(symReplayMain(os.Args[2]))
 	case "replay":
 		os.Exit(replayMain(os.Args[2]))
 	default:
@@ -97,5 +100,66 @@ func replayMain(file string) int {
 		}
 	}
 	fmt.Println("not reproduced on the current tree")
+	return 0
+}
+
+// symReplayMain runs a recorded script through the symbolic engine with all
+// nondeterministic values pinned (debugging aid for engine/native mismatches).
+func symReplayMain(file string) int {
+	b, err := os.ReadFile(file)
+	if err != nil {
+		fmt.Fprintln(os.Stderr, err)
+		return 3
+	}
+	var r struct {
+		Property string             `json:"property"`
+		Entry    string             `json:"entry"`
+		Package  string             `json:"package"`
+		Params   map[string]int     `json:"params"`
+		Script   []interp.ScriptVal `json:"script"`
+	}
+	if err := json.Unmarshal(b, &r); err != nil {
+		fmt.Fprintln(os.Stderr, err)
+		return 3
+	}
+	cfg, err := loadConfig(r.Property)
+	if err != nil {
+		fmt.Fprintln(os.Stderr, err)
+		return 3
+	}
+	work := filepath.Join(verifDir, ".work", r.Property+"-symreplay")
+	os.RemoveAll(work)
+	os.MkdirAll(work, 0o755)
+	ov, err := buildOverlay(cfg, work)
+	if err != nil {
+		fmt.Fprintln(os.Stderr, err)
+		return 3
+	}
+	wi := WorkerInit{Overlay: ov.Files, Patterns: []string{r.Package}, TimeoutMs: 10000, WorkDir: work}
+	prog, by, _, err := loadProgram(&wi)
+	if err != nil {
+		fmt.Fprintln(os.Stderr, err)
+		return 3
+	}
+	eng := interp.NewEngine(prog, &types.StdSizes{WordSize: 8, MaxAlign: 8}, nil, denyInit, 10000)
+	defer eng.Close()
+	if msg := eng.Init(); msg != "" {
+		fmt.Fprintln(os.Stderr, msg)
+		return 3
+	}
+	eng.Params = r.Params
+	eng.Pinned = r.Script
+	var work2 [][]interp.Dec
+	work2 = append(work2, nil)
+	for len(work2) > 0 {
+		p := work2[len(work2)-1]
+		work2 = work2[:len(work2)-1]
+		res := eng.RunPath(by[r.Package].Func(r.Entry), p)
+		fmt.Printf("status=%s why=%s decisions=%d trace=%v violations=%d\n", res.Status, res.Why, res.Decisions, res.Trace, len(res.Violations))
+		for _, v := range res.Violations {
+			fmt.Printf("  violation: %s %v\n", v.Msg, v.Trace)
+		}
+		work2 = append(work2, res.Alts...)
+	}
 	return 0
 }
